@@ -14,7 +14,8 @@
 //! * compared after every operation: outcome (`Forwarded`/`Done`/`Err(variant)`, packets pushed to the network,
 //!   `Some`/`None` of the outgoing path), tunnel table (address → peer static, via hook), association map and
 //!   registration records (sorted, via hook), `has_authorization` for 4 identities;
-//! * spec oracle (independent of the model) on the implementation's own output – see `oracle_*` below.
+//! * spec oracle (independent of the model) on the implementation's own output – see `oracle_*` below;
+//! * stream "conc": real threads on the real registry, linearisability oracle (see the section before `run_history`).
 use std::{
     collections::{BTreeMap, HashMap, VecDeque},
     net::SocketAddr,
@@ -750,6 +751,490 @@ impl World {
     }
 }
 
+// ---------------------------------------------------------------------------------------------------------------
+// stream "conc" (the property's quantifier "schedules"): real threads on one real `IdentityRegistry`.
+//
+// scenario = sequential prefix (reg / adv / purge) that builds a pre-state, then 2..4 updates (`register`,
+// `remove_expired`, all at the same instant T) started together from different threads, with reader threads that
+// take atomic snapshots (`verif_snapshot` = one `ArcSwap::load`) and single verdicts (`has_authorization`) meanwhile.
+// ORACLE (linearisability, computed by the Lean model driver for every order of the updates, shared prefixes):
+//   * final registry state + verdicts at T + each update's return value = those of ONE sequential order;
+//   * every snapshot a reader saw = the state after some prefix of some order; every single verdict occurs there;
+//   * the registry invariants on the final state; the ballast entries (only there to make the copy in
+//     `update_state` slower, i.e. the window between load and store wider) are untouched.
+// A violation is schedule-dependent: the stored case replays the scenario many times.
+// ---------------------------------------------------------------------------------------------------------------
+const CK: u64 = 3;
+const CI: u64 = 4;
+const BALLAST_SECS: u64 = 1_000_000;
+
+struct Scenario {
+    prefix: Vec<Op>,
+    ops: Vec<Op>,
+}
+impl Scenario {
+    fn line(&self) -> String {
+        format!("conc: {} || {}", hist_line(&self.prefix), self.ops.iter().map(|o| o.text()).collect::<Vec<_>>().join(" | "))
+    }
+    fn parse(l: &str) -> Option<Scenario> {
+        let l = l.trim().strip_prefix("conc:")?;
+        let (a, b) = l.split_once("||")?;
+        let prefix = parse_hist(a)?;
+        let ops: Vec<Op> = b.split('|').map(|s| s.trim()).filter(|s| !s.is_empty()).map(Op::parse).collect::<Option<_>>()?;
+        let ok_pre = prefix.iter().all(|o| matches!(o, Op::Reg { k, i, .. } if *k < CK && *i < CI) || matches!(o, Op::Adv(_) | Op::Purge));
+        let ok_ops = ops.iter().all(|o| matches!(o, Op::Reg { k, i, .. } if *k < CK && *i < CI) || matches!(o, Op::Purge));
+        (ok_pre && ok_ops && (1..=4).contains(&ops.len())).then_some(Scenario { prefix, ops })
+    }
+}
+fn conc_id(i: u64) -> [u8; 32] {
+    [0xC0 + i as u8; 32]
+}
+fn ballast_id(j: usize) -> [u8; 32] {
+    let mut b = [0xB0u8; 32];
+    b[0] = j as u8;
+    b[1] = (j >> 8) as u8;
+    b
+}
+type Snapshot = (Vec<(String, [u8; 32])>, Vec<([u8; 32], Instant)>);
+
+/// canonical text `a=<key:id,…> s=<id:expiry ms,…>` of the non-ballast part (driver format) and the verdicts that
+/// follow from the snapshot itself (expiry > T); Err = ballast damaged / foreign entry
+fn conc_core(snap: &Snapshot, base: Instant, now: Instant, ballast: usize) -> Result<(String, String), String> {
+    let (assoc, sess) = snap;
+    let idx = |id: &[u8; 32]| (0..CI).find(|i| conc_id(*i) == *id);
+    let (mut a, mut s, mut nb_a, mut nb_s) = (vec![], vec![], 0usize, 0usize);
+    for (k, v) in assoc {
+        if let Some(j) = k.strip_prefix('b').and_then(|x| x.parse::<usize>().ok()) {
+            if j >= ballast || *v != ballast_id(j) {
+                return Err(format!("ballast key {k} bound to a wrong identity"));
+            }
+            nb_a += 1;
+        } else {
+            let kk: u64 = k.strip_prefix('k').and_then(|x| x.parse().ok()).ok_or(format!("foreign key {k}"))?;
+            a.push((kk, idx(v).ok_or(format!("key {k} bound to a foreign identity"))?));
+        }
+    }
+    for (id, e) in sess {
+        match idx(id) {
+            Some(i) => s.push((i, e.duration_since(base).as_millis() as u64)),
+            None if *e == base + Duration::from_secs(BALLAST_SECS) => nb_s += 1,
+            None => return Err("foreign registration record".into()),
+        }
+    }
+    if nb_a != ballast || nb_s != ballast {
+        return Err(format!("{nb_a}/{nb_s} of {ballast} ballast associations/registrations left"));
+    }
+    a.sort();
+    s.sort();
+    let pr = |l: &Vec<(u64, u64)>| if l.is_empty() { "-".to_string() } else { l.iter().map(|(x, y)| format!("{x}:{y}")).collect::<Vec<_>>().join(",") };
+    let auth: String = (0..CI).map(|i| if sess.iter().any(|(id, e)| *id == conc_id(i) && *e > now) { '1' } else { '0' }).collect();
+    Ok((format!("a={} s={}", pr(&a), pr(&s)), auth))
+}
+
+/// what the Lean model says about every order of the concurrent updates
+#[derive(Default)]
+struct Lin {
+    /// (state core, verdicts) after every prefix of every order (including the pre-state)
+    nodes: std::collections::HashSet<(String, String)>,
+    /// complete orders: (state core, verdicts, return value of each update by its index) -> one order that yields it
+    leaves: BTreeMap<(String, String, Vec<String>), Vec<usize>>,
+}
+fn split_model(resp: &str) -> Option<(String, String, String)> {
+    let (out, st) = resp.split_once(" | ")?;
+    let a = st.find("a=")?;
+    let au = st.find(" auth=")?;
+    Some((out.to_string(), st[a..au].to_string(), st[au + 6..].to_string()))
+}
+fn lin_dfs(sc: &Scenario, m: usize, order: &mut Vec<usize>, rets: &mut Vec<String>, lean: &mut Lean, lin: &mut Lin) -> Result<(), String> {
+    for x in 0..sc.ops.len() {
+        if order.contains(&x) {
+            continue;
+        }
+        let resp = lean.ask(&format!("at {} {}", m + order.len(), sc.ops[x].text()));
+        let (out, core, auth) = split_model(&resp).ok_or(format!("model answered {resp:?}"))?;
+        order.push(x);
+        let old = std::mem::replace(&mut rets[x], out);
+        lin.nodes.insert((core.clone(), auth.clone()));
+        if order.len() == sc.ops.len() {
+            lin.leaves.entry((core, auth, rets.clone())).or_insert_with(|| order.clone());
+        } else {
+            lin_dfs(sc, m, order, rets, lean, lin)?;
+        }
+        rets[x] = old;
+        order.pop();
+    }
+    Ok(())
+}
+fn linearisations(sc: &Scenario, lean: &mut Lean) -> Result<Lin, String> {
+    let mut lin = Lin::default();
+    let r = lean.ask("new");
+    if r != "ok" {
+        return Err(format!("model answered {r:?} to new"));
+    }
+    let mut pre = ("a=- s=-".to_string(), "0".repeat(CI as usize));
+    for op in &sc.prefix {
+        let resp = lean.ask(&op.text());
+        let (_, core, auth) = split_model(&resp).ok_or(format!("model answered {resp:?}"))?;
+        pre = (core, auth);
+    }
+    lin.nodes.insert(pre);
+    lin_dfs(sc, sc.prefix.len(), &mut vec![], &mut vec![String::new(); sc.ops.len()], lean, &mut lin)?;
+    Ok(lin)
+}
+
+struct RoundObs {
+    fin: Snapshot,
+    fin_verdicts: String,
+    rets: Vec<String>,
+    reader_snaps: Vec<Snapshot>,
+    reader_verdicts: Vec<(u64, bool)>,
+    base: Instant,
+    now: Instant,
+}
+fn apply_seq(reg: &IdentityRegistry, base: Instant, t: &mut u64, op: &Op) -> String {
+    let now = base + Duration::from_millis(*t);
+    match op {
+        Op::Reg { k, i, life } => match catch(|| reg.register(now, format!("k{k}"), conc_id(*i), Duration::from_millis(*life))) {
+            Ok(true) => "reg new".into(),
+            Ok(false) => "reg old".into(),
+            Err(m) => format!("panic: {m}"),
+        },
+        Op::Purge => match catch(|| reg.remove_expired(now)) {
+            Ok(()) => "ok".into(),
+            Err(m) => format!("panic: {m}"),
+        },
+        Op::Adv(d) => {
+            *t += d;
+            "ok".into()
+        }
+        _ => "bad-op".into(),
+    }
+}
+/// one schedule: fresh registry, ballast, prefix, then all updates (and the readers) released together
+fn conc_round(sc: &Scenario, ballast: usize, nreaders: usize, sequential: Option<&[usize]>) -> RoundObs {
+    use std::sync::atomic::{AtomicBool, AtomicUsize};
+    let reg = IdentityRegistry::new();
+    let base = Instant::now();
+    for j in 0..ballast {
+        reg.register(base, format!("b{j}"), ballast_id(j), Duration::from_secs(BALLAST_SECS));
+    }
+    let mut t = 0u64;
+    for op in &sc.prefix {
+        apply_seq(&reg, base, &mut t, op);
+    }
+    let now = base + Duration::from_millis(t);
+    let n = sc.ops.len();
+    let (mut rets, mut reader_snaps, mut reader_verdicts) = (vec![String::new(); n], vec![], vec![]);
+    if let Some(order) = sequential {
+        for &x in order {
+            rets[x] = apply_seq(&reg, base, &mut t, &sc.ops[x]);
+        }
+    } else {
+        let (ready, go, finished) = (AtomicUsize::new(0), AtomicBool::new(false), AtomicUsize::new(0));
+        let wait_go = || {
+            ready.fetch_add(1, Ordering::SeqCst);
+            let mut spins = 0u32;
+            while !go.load(Ordering::Acquire) {
+                spins += 1;
+                if spins % 4096 == 0 { std::thread::yield_now() } else { std::hint::spin_loop() }
+            }
+        };
+        std::thread::scope(|s| {
+            let workers: Vec<_> = sc
+                .ops
+                .iter()
+                .map(|op| {
+                    let (reg, wait_go, finished) = (&reg, &wait_go, &finished);
+                    s.spawn(move || {
+                        wait_go();
+                        let mut tt = t;
+                        let r = apply_seq(reg, base, &mut tt, op);
+                        finished.fetch_add(1, Ordering::SeqCst);
+                        r
+                    })
+                })
+                .collect();
+            let readers: Vec<_> = (0..nreaders)
+                .map(|_| {
+                    let (reg, wait_go, finished) = (&reg, &wait_go, &finished);
+                    s.spawn(move || {
+                        wait_go();
+                        let (mut snaps, mut verdicts) = (vec![], vec![]);
+                        loop {
+                            let fin = finished.load(Ordering::SeqCst) == n;
+                            if snaps.len() < 48 {
+                                snaps.push(reg.verif_snapshot());
+                                for i in 0..CI {
+                                    verdicts.push((i, reg.has_authorization(now, &conc_id(i))));
+                                }
+                            }
+                            if fin {
+                                break;
+                            }
+                        }
+                        (snaps, verdicts)
+                    })
+                })
+                .collect();
+            let mut spins = 0u32;
+            while ready.load(Ordering::SeqCst) < n + nreaders {
+                spins += 1;
+                if spins % 1024 == 0 { std::thread::yield_now() } else { std::hint::spin_loop() }
+            }
+            go.store(true, Ordering::Release);
+            for (x, w) in workers.into_iter().enumerate() {
+                rets[x] = w.join().unwrap_or_else(|_| "panic: worker".into());
+            }
+            for r in readers {
+                if let Ok((sn, ve)) = r.join() {
+                    reader_snaps.extend(sn);
+                    reader_verdicts.extend(ve);
+                }
+            }
+        });
+    }
+    let fin_verdicts: String = (0..CI).map(|i| if reg.has_authorization(now, &conc_id(i)) { '1' } else { '0' }).collect();
+    RoundObs { fin: reg.verif_snapshot(), fin_verdicts, rets, reader_snaps, reader_verdicts, base, now }
+}
+
+/// every order of the updates executed sequentially on the real registry (used when the model driver is missing)
+fn linearisations_impl(sc: &Scenario) -> Lin {
+    fn perms(n: usize, cur: &mut Vec<usize>, out: &mut Vec<Vec<usize>>) {
+        if !cur.is_empty() {
+            out.push(cur.clone());
+        }
+        for x in 0..n {
+            if !cur.contains(&x) {
+                cur.push(x);
+                perms(n, cur, out);
+                cur.pop();
+            }
+        }
+    }
+    let mut lin = Lin::default();
+    let mut all = vec![vec![]];
+    perms(sc.ops.len(), &mut vec![], &mut all);
+    for order in all {
+        let sub = Scenario { prefix: sc.prefix.clone(), ops: sc.ops.clone() };
+        let o = conc_round(&sub, 0, 0, Some(&order));
+        if let Ok((core, auth)) = conc_core(&o.fin, o.base, o.now, 0) {
+            lin.nodes.insert((core.clone(), auth.clone()));
+            if order.len() == sc.ops.len() {
+                lin.leaves.entry((core, auth, o.rets.clone())).or_insert(order);
+            }
+        }
+    }
+    lin
+}
+
+struct ConcStats {
+    rounds: u64,
+    failures: u64,
+}
+/// run `reps` schedules of one scenario against the linearisability oracle
+fn conc_scenario(sc: &Scenario, reps: usize, ballast: usize, kind: &str, lean: &mut Lean, rep: &mut Report, st: &mut ConcStats) {
+    let line = sc.line();
+    let lin = if lean.enabled {
+        match linearisations(sc, lean) {
+            Ok(l) => l,
+            Err(e) => {
+                rep.disagree("conc", json!({"line": line}), "-", &e);
+                return;
+            }
+        }
+    } else {
+        linearisations_impl(sc)
+    };
+    // the model's sequential results must be those of the implementation run sequentially (correspondence)
+    if lean.enabled {
+        let order: Vec<usize> = (0..sc.ops.len()).collect();
+        let o = conc_round(sc, 0, 0, Some(&order));
+        let imp = conc_core(&o.fin, o.base, o.now, 0).map(|(c, _)| (c, o.fin_verdicts.clone(), o.rets.clone()));
+        match imp {
+            // (the order 0,1,.. is the first leaf of the DFS, so it is the order recorded for its result)
+            Ok(key) if lin.leaves.get(&key) == Some(&order) => {}
+            other => rep.disagree("conc-sequential", json!({"line": line}), &format!("{other:?}"), &format!("{:?}", lin.leaves.keys().collect::<Vec<_>>())),
+        }
+    }
+    let distinct_finals: std::collections::HashSet<(&String, &String)> = lin.leaves.keys().map(|(c, a, _)| (c, a)).collect();
+    let order_sensitive = distinct_finals.len() >= 2;
+    rep.hit(&format!("conc scenario {kind}"));
+    rep.hit(&format!("conc scenario with {} concurrent updates", sc.ops.len()));
+    if order_sensitive {
+        rep.hit("conc scenario order-sensitive (>= 2 distinct sequential results)");
+    }
+    let identity: Vec<usize> = (0..sc.ops.len()).collect();
+    let mut reported = false;
+    for _ in 0..reps {
+        let o = conc_round(sc, ballast, 2, None);
+        st.rounds += 1;
+        rep.case(&line, order_sensitive);
+        rep.traces += 1;
+        let mut bad: Vec<String> = vec![];
+        for r in &o.rets {
+            if r.starts_with("panic") {
+                bad.push(format!("an update panicked: {r}"));
+            }
+        }
+        let fin = conc_core(&o.fin, o.base, o.now, ballast);
+        let mut fin_txt = String::new();
+        match &fin {
+            Err(e) => bad.push(format!("final state: {e}")),
+            Ok((core, auth_from_snapshot)) => {
+                fin_txt = format!("{core} auth={} returns={:?}", o.fin_verdicts, o.rets);
+                if *auth_from_snapshot != o.fin_verdicts {
+                    bad.push(format!("has_authorization at T says {} but the registrations say {auth_from_snapshot}", o.fin_verdicts));
+                }
+                match lin.leaves.get(&(core.clone(), o.fin_verdicts.clone(), o.rets.clone())) {
+                    Some(ord) => {
+                        if order_sensitive && *ord != identity {
+                            rep.hit("conc round linearised in an order other than thread order");
+                        }
+                    }
+                    None => {
+                        let lost = !lin.leaves.keys().any(|(c, a, _)| c == core && *a == o.fin_verdicts);
+                        bad.push(if lost {
+                            "final state is the result of NO sequential order of the concurrent updates (lost update)".to_string()
+                        } else {
+                            "final state matches a sequential order but the updates' return values (was_new) match none".to_string()
+                        });
+                    }
+                }
+                // registry invariants on the final state
+                let mut vals: Vec<[u8; 32]> = o.fin.0.iter().map(|(_, v)| *v).collect();
+                vals.sort();
+                let keys: Vec<[u8; 32]> = o.fin.1.iter().map(|(k, _)| *k).collect();
+                if vals.windows(2).any(|w| w[0] == w[1]) {
+                    bad.push("an identity is bound to two token keys".into());
+                }
+                if keys != vals {
+                    bad.push("identities bound to a key != identities with a registration".into());
+                }
+            }
+        }
+        let mut intermediate = false;
+        for sn in &o.reader_snaps {
+            match conc_core(sn, o.base, o.now, ballast) {
+                Err(e) => bad.push(format!("a reader saw: {e}")),
+                Ok(node) => {
+                    if !lin.nodes.contains(&node) {
+                        bad.push(format!("a reader's snapshot `{} auth={}` is the state after no prefix of any order", node.0, node.1));
+                    }
+                    if let Ok((c, _)) = &fin {
+                        intermediate |= node.0 != *c;
+                    }
+                }
+            }
+        }
+        for (i, v) in &o.reader_verdicts {
+            let ch = if *v { '1' } else { '0' };
+            if !lin.nodes.iter().any(|(_, a)| a.as_bytes()[*i as usize] as char == ch) {
+                bad.push(format!("a reader got has_authorization(identity {i}) = {v}, which holds after no prefix of any order"));
+            }
+        }
+        rep.hit_n("conc reader snapshots checked", o.reader_snaps.len() as u64);
+        if intermediate {
+            rep.hit("conc round in which a reader saw a state other than the final one");
+        }
+        if !bad.is_empty() {
+            st.failures += 1;
+            bad.dedup();
+            if !reported {
+                reported = true;
+                let seqs: Vec<String> = lin.leaves.iter().map(|((c, a, r), ord)| format!("order {ord:?}: {c} auth={a} returns={r:?}")).collect();
+                rep.spec_fail(
+                    "C09:concurrent:not-linearizable",
+                    &format!(
+                        "{} [{}] after the concurrent updates `{}` on the pre-state built by `{}`: observed `{}` (schedule-dependent: replay runs the scenario many times)",
+                        bad.join("; "),
+                        kind,
+                        sc.ops.iter().map(|o| o.text()).collect::<Vec<_>>().join(" | "),
+                        hist_line(&sc.prefix),
+                        fin_txt
+                    ),
+                    json!({"line": line, "observed_final": fin_txt, "sequential_results": seqs, "ballast": ballast, "schedule_dependent": true}),
+                );
+            } else {
+                rep.hit("SPECFAIL C09:concurrent:not-linearizable (further rounds of a reported scenario)");
+            }
+        }
+    }
+}
+
+fn gen_scenario(rng: &mut Rng) -> Scenario {
+    let reg = |rng: &mut Rng, lives: &[u64]| Op::Reg { k: rng.below(CK), i: rng.below(CI), life: *rng.pick(lives) };
+    let mut prefix = vec![];
+    for _ in 0..rng.below(5) {
+        prefix.push(match rng.below(10) {
+            0..=6 => reg(rng, &[1, 2, 3, 5, 50]),
+            7..=8 => Op::Adv(*rng.pick(&[1, 2])),
+            _ => Op::Purge,
+        });
+    }
+    let n = rng.range(2, 4) as usize;
+    let ops = (0..n).map(|_| if rng.chance(1, 7) { Op::Purge } else { reg(rng, &[0, 1, 3, 50]) }).collect();
+    Scenario { prefix, ops }
+}
+
+/// the review's scenario: key k -> identity a; concurrently register(k, b) and register(k2, c): afterwards a must
+/// not be authorised and b and c must both be registered – and its relatives
+fn directed_conc() -> Vec<&'static str> {
+    vec![
+        "conc: reg 0 0 50 || reg 0 1 50 | reg 1 2 50",
+        "conc: reg 1 3 50 || reg 2 0 50 | reg 1 2 50",
+        "conc: reg 0 0 50; reg 1 1 50 || reg 0 2 50 | reg 1 3 50",
+        "conc: reg 0 0 50 || reg 1 0 50 | reg 0 1 50",
+        "conc: reg 0 0 1; reg 1 1 50; adv 1 || purge | reg 2 2 50",
+        "conc: reg 0 0 50 || reg 0 1 50 | reg 1 2 50 | reg 2 3 50",
+        "conc: || reg 0 0 50 | reg 1 1 50 | reg 2 2 50 | reg 0 3 50",
+    ]
+}
+
+/// `register` with a lifetime that `Instant + Duration` cannot represent (not reachable through the RPC handler:
+/// lifetime = exp_time - SystemTime::now()). Observation only.
+fn observe_huge_lifetime(rep: &mut Report) {
+    let reg = IdentityRegistry::new();
+    let now = Instant::now();
+    match catch(|| reg.register(now, "k0", conc_id(0), Duration::from_secs(u64::MAX / 2))) {
+        Ok(_) => rep.hit("observation: register(lifetime = u64::MAX/2 s) did not panic"),
+        Err(m) => {
+            rep.hit("observation: register(lifetime = u64::MAX/2 s) panics in `now + lifetime` (direct API call only)");
+            let again = catch(|| reg.register(now, "k0", conc_id(0), Duration::from_secs(1)));
+            let purge = catch(|| reg.remove_expired(now));
+            if again.is_err() || purge.is_err() {
+                rep.hit("observation: that panic happens under the write lock and poisons it - every later register / remove_expired panics");
+                rep.notes.push(format!(
+                    "observation (direct API call only, not a C09 violation): register(now, k, id, Duration::from_secs(u64::MAX/2)) panics ({m}) inside update_state while the write lock is held; the Mutex is poisoned and every later register/remove_expired panics ({}); readers keep working on the last snapshot",
+                    again.err().or(purge.err()).unwrap_or_default()
+                ));
+            }
+            if !reg.has_authorization(now, &conc_id(0)) {
+                rep.hit("observation: the failed registration left the registry unchanged");
+            }
+        }
+    }
+}
+
+fn conc_stream(args: &Args, rng: &mut Rng, lean: &mut Lean, rep: &mut Report, corpus: &[Scenario]) {
+    let ballast: usize = args.extra.get("ballast").and_then(|v| v.parse().ok()).unwrap_or(24);
+    let mut st = ConcStats { rounds: 0, failures: 0 };
+    let t0 = Instant::now();
+    for sc in corpus {
+        conc_scenario(sc, args.scale(300, 4000), ballast, "corpus", lean, rep, &mut st);
+    }
+    for l in directed_conc() {
+        let sc = Scenario::parse(l).expect("directed concurrent scenario");
+        conc_scenario(&sc, args.scale(300, 20000), ballast, "directed", lean, rep, &mut st);
+    }
+    for _ in 0..args.scale(600, 20000) {
+        let sc = gen_scenario(rng);
+        conc_scenario(&sc, args.scale(4, 16), ballast, "random", lean, rep, &mut st);
+    }
+    rep.hit_n("conc rounds (schedules) run", st.rounds);
+    rep.hit_n("conc rounds violating the oracle", st.failures);
+    rep.notes.push(format!("conc stream: {} schedules in {:.1}s, {} violating", st.rounds, t0.elapsed().as_secs_f64(), st.failures));
+}
+
 fn run_history(ops: &[Op], lean: &mut Lean) -> Outcome {
     let mut o = Outcome::default();
     let mut w = World::new();
@@ -998,10 +1483,25 @@ fn main() {
          applied to the real IdentityRegistry + SnapTunServer + gotatun Tunn clients and to the Lean model, compared after \
          every operation (outcome, network output, tunnel table, association map, registrations, verdicts). Non-trivial = \
          at least one payload forwarded or encrypted AND at least one packet refused for lack of authorisation (full-system \
-         histories), or at least two registrations (registry-only enumeration); distinct by hash of the operation list",
+         histories), or at least two registrations (registry-only enumeration); distinct by hash of the operation list. Stream conc: case = one \
+         schedule (real threads released together on one real IdentityRegistry) of a scenario `prefix || concurrent updates`, \
+         checked for linearisability against every sequential order computed by the Lean model; non-trivial = the concurrent \
+         updates have at least two distinct sequential results (order-sensitive); distinct by scenario (lost updates show for \
+         order-insensitive sets too)",
     );
     let mut histories: Vec<(String, Vec<Op>)> = vec![];
+    let mut conc_corpus: Vec<Scenario> = vec![];
+    let mut conc_replay: Vec<Scenario> = vec![];
+    // `--only conc` (never passed by bin/check): just the concurrent stream, for measuring it
+    let only_conc = args.extra.get("only").is_some_and(|v| v == "conc");
     for l in read_corpus(&args.corpus) {
+        if l.starts_with("conc:") {
+            match Scenario::parse(&l) {
+                Some(sc) => conc_corpus.push(sc),
+                None => rep.notes.push(format!("unparseable corpus line: {}", &l[..l.len().min(60)])),
+            }
+            continue;
+        }
         match parse_hist(&l) {
             Some(h) => histories.push(("corpus".into(), h)),
             None => rep.notes.push(format!("unparseable corpus line: {}", &l[..l.len().min(60)])),
@@ -1010,7 +1510,10 @@ fn main() {
     rep.hit_n("corpus histories", histories.len() as u64);
     if let Some(p) = &args.replay {
         let txt = std::fs::read_to_string(p).expect("replay file");
-        histories = txt.lines().filter(|l| !l.trim().is_empty() && !l.starts_with('#')).filter_map(parse_hist).map(|h| ("replay".to_string(), h)).collect();
+        conc_replay = txt.lines().filter(|l| l.trim().starts_with("conc:")).filter_map(Scenario::parse).collect();
+        histories = txt.lines().filter(|l| !l.trim().is_empty() && !l.starts_with('#') && !l.trim().starts_with("conc:")).filter_map(parse_hist).map(|h| ("replay".to_string(), h)).collect();
+    } else if only_conc {
+        histories.clear();
     } else {
         for (name, h) in directed() {
             histories.push((format!("directed:{name}"), parse_hist(h).expect("directed history")));
@@ -1107,7 +1610,19 @@ fn main() {
         }
     }
     if args.replay.is_none() {
-        registry_dfs(args.scale(4, 5), &mut lean, &mut rep);
+        if !only_conc {
+            registry_dfs(args.scale(4, 5), &mut lean, &mut rep);
+        }
+        conc_stream(&args, &mut rng, &mut lean, &mut rep, &conc_corpus);
+        observe_huge_lifetime(&mut rep);
+    } else {
+        // a concurrent case is schedule-dependent: replay = many schedules of the stored scenario
+        let ballast: usize = args.extra.get("ballast").and_then(|v| v.parse().ok()).unwrap_or(24);
+        let mut st = ConcStats { rounds: 0, failures: 0 };
+        for sc in &conc_replay {
+            conc_scenario(sc, 5000, ballast, "replay", &mut lean, &mut rep, &mut st);
+            rep.sample(json!({"kind": "conc replay", "scenario": sc.line(), "schedules": st.rounds, "violating": st.failures}));
+        }
     }
     rep.exhaustive = args.replay.is_none();
     rep.write(&args.out);
